@@ -14,6 +14,8 @@ pub const PLAIN_KEYS: &[&str] = &[
     // look-alikes that only a Unicode normalisation would identify (precomposed / decomposed, compatibility
     // characters), case variants, and long names
     "e\u{301}", "\u{c5}", "\u{212b}", "A\u{30a}", "\u{df}", "ss", "SS", "\u{131}", "i", "I",
+    // a full stop followed by a blank, C1 controls (allowed unescaped), a soft hyphen
+    "a. b", "Dr. X", "\u{85}", "x\u{9f}y", "\u{ad}",
     // noncharacters and the ends of the planes (allowed unescaped in names)
     "\u{ffff}", "\u{fffe}", "\u{fdd0}", "\u{10ffff}", "\u{1fffe}x",
     "kkkkkkkkkkkkkkkkkkkkkkkkkkkkkkkkkkkkkkkkkkkkkkkkkkkkkkkkkkkkkkkkkkkkkk", "\u{e9}\u{e9}\u{e9}\u{e9}\u{e9}\u{e9}\u{e9}\u{e9}\u{e9}\u{e9}\u{e9}\u{e9}\u{e9}\u{e9}\u{e9}\u{e9}\u{e9}\u{e9}\u{e9}\u{e9}\u{e9}\u{e9}\u{e9}\u{e9}\u{e9}\u{e9}\u{e9}\u{e9}\u{e9}\u{e9}\u{e9}\u{e9}\u{e9}\u{e9}\u{e9}\u{e9}\u{e9}\u{e9}\u{e9}\u{e9}",
@@ -29,6 +31,8 @@ pub const SPECIAL_KEYS: &[&str] = &[
     "'tis", "\"x", "'\u{e9}",
     // a backslash in front of a solidus (each may or must be escaped: `\\\/`, `\\/`)
     "dir\\/file", "\\/", "a\\/\\/b",
+    // doubled quotes at both ends
+    "''k''", "\"\"k\"\"",
 ];
 
 #[derive(Clone, Debug)]
@@ -102,7 +106,7 @@ pub fn gen_scalar(src: &mut Src) -> J {
         2 => J::Bool(true),
         3 => J::Int(*src.pick(&[0, 1, 2, -1, 3, 5, 10, 100])),
         4 => J::Float(*src.pick(&[1.0, 1.5, 0.5, -0.0, 2.0, 0.1, 1e2, -1.5, 0.0])),
-        5 => J::Str(src.pick(&["", "a", "b", "ab", "1", "A", "é", "𝄞", "abc", " "]).to_string()),
+        5 => J::Str(src.pick(&["", "a", "b", "ab", "1", "A", "é", "𝄞", "abc", " ", "a. b", "(", "f(x)"]).to_string()),
         _ => match src.below(7) {
             4 => J::Str(src.pick(&["x", "é", "𝄞"]).repeat(*src.pick(&[64usize, 255, 256, 257, 1000]))),
             // integers beyond the I-JSON range (a document may hold them; a query literal may not): a
